@@ -11,6 +11,8 @@ import NutsModel.C19.Resolver
 import NutsModel.C19.Bitstring
 import NutsModel.C19.Iblt
 import NutsModel.C19.Callback
+import NutsModel.C19.StatusList
+import NutsModel.C19.DidKey
 namespace Nuts.C19.Sites
 open Nuts
 
@@ -34,6 +36,8 @@ inductive Disp where
   | site (name : String)
   /-- it cannot fail; why -/
   | total (why : String)
+  /-- the function is not inside a model: the operation is only SAMPLED, by this harness entry point (crash/timeout oracle) -/
+  | sampled (entryPoint : String)
   deriving Repr, DecidableEq
 
 structure Entry where
@@ -181,13 +185,173 @@ def expected : List (String × List Entry) := [
   ("auth/api/iam/validation.go:Wrapper.validatePresentationAudience", [
     ⟨"nilcheck:proof.Domain != nil", .total "guard of *proof.Domain"⟩,
     ⟨"deref:*proof.Domain", .total "under the nil check"⟩,
-    ⟨"range:audience", .total "bounded loop"⟩])]
+    ⟨"range:audience", .total "bounded loop"⟩]),
+  ("auth/api/iam/openid4vp.go:Wrapper.getClientMetadataFromRequest", [
+    ⟨"nilcheck:metadata == nil", .sampled "iam.handleAuthorizeRequestFromVerifier"⟩]),
+  ("auth/api/iam/openid4vp.go:Wrapper.getPresentationDefinitionFromRequest", [
+    ⟨"nilcheck:presentationDefinition == nil", .sampled "iam.handleAuthorizeRequestFromVerifier"⟩]),
+  ("vcr/revocation/statuslist2021_verifier.go:StatusList2021.Verify", [
+    ⟨"nilcheck:credentialToVerify.CredentialStatus == nil", .total "no status, nothing to verify"⟩,
+    ⟨"range:statuses", .total "bounded loop (model: verifyEntries)"⟩]),
+  ("vcr/revocation/statuslist2021_verifier.go:StatusList2021.statusList", [
+    ⟨"nilcheck:cr.Expires != nil", .total "guard of *cr.Expires"⟩,
+    ⟨"deref:*cr.Expires", .total "under cr.Expires != nil in the same condition"⟩,
+    ⟨"nilcheck:cr.Expires != nil", .total "guard of *cr.Expires"⟩,
+    ⟨"deref:*cr.Expires", .total "under cr.Expires != nil in the same condition"⟩]),
+  ("vcr/revocation/statuslist2021_verifier.go:StatusList2021.update", [
+    ⟨"deref:*cred", .total "download returns a non-nil credential when it returns no error"⟩,
+    ⟨"nilcheck:cred.ExpirationDate != nil", .total "GUARD of cred.ExpirationDate.IsZero() (Cfg.expirationNilGuard); without it: site update:cred.ExpirationDate.IsZero()(nil)"⟩]),
+  ("vcr/revocation/statuslist2021_verifier.go:StatusList2021.download", [
+    ⟨"defer:<*ast.FuncLit>", .sampled "revocation.Verify / revocation.statusListCredential"⟩]),
+  ("vcr/revocation/statuslist2021_verifier.go:StatusList2021.verify", []),
+  ("vcr/revocation/statuslist2021_verifier.go:StatusList2021.validate", [
+    ⟨"lencheck:len(cred.Type) > 2", .total "error: other types"⟩,
+    ⟨"nilcheck:cred.ID == nil", .total "error: id required"⟩,
+    ⟨"nilcheck:cred.Proof == nil", .total "error: proof required"⟩,
+    ⟨"nilcheck:cred.CredentialStatus != nil", .total "error: status list credential with a status"⟩,
+    ⟨"lencheck:len(target) != 1", .total "GUARD of target[0] (Cfg.singleSubjectGuard)"⟩,
+    ⟨"index:target[0]", .site "validate:target[0]"⟩]),
+  ("vcr/revocation/bitstring.go:bitstring.Scan", [
+    ⟨"nilcheck:value == nil", .sampled "revocation.bitstring.Scan / revocation.statusListCredential"⟩,
+    ⟨"deref:*bs", .sampled "revocation.bitstring.Scan / revocation.statusListCredential"⟩,
+    ⟨"deref:*bs", .sampled "revocation.bitstring.Scan / revocation.statusListCredential"⟩]),
+  ("vcr/revocation/bitstring.go:expand", []),
+  ("vdr/didkey/resolver.go:Resolver.Resolve", [
+    ⟨"lencheck:len(encodedKey) == 0", .total "GUARD of encodedKey[0] (DidKey.Cfg.emptyGuard)"⟩,
+    ⟨"index:encodedKey[0]", .site "Resolve:encodedKey[0]"⟩,
+    ⟨"slice:encodedKey[1:]", .total "encodedKey has at least one character here"⟩,
+    ⟨"discard:io.ReadAll(reader)", .total "reading from a bytes.Reader does not fail"⟩,
+    ⟨"discard:unmarshalEC(elliptic.P521(), -1, mcBytes)", .total "expectedLen -1: unmarshalEC cannot return an error; invalid points give nil coordinates, which NewVerificationMethod rejects (data vmOk)"⟩]),
+  ("vdr/didkey/resolver.go:unmarshalEC", [
+    ⟨"lencheck:len(pubKeyBytes) != expectedLen", .total "length error (model: keyLength tests)"⟩]),
+  ("vdr/didjwk/resolver.go:Resolver.Resolve", [
+    ⟨"nilcheck:rawPrivateKey != nil", .sampled "didjwk.Resolve"⟩,
+    ⟨"assertok:publicRawKey.(*ecdsa.PublicKey)", .sampled "didjwk.Resolve"⟩,
+    ⟨"nilcheck:ecKey.X == nil", .sampled "didjwk.Resolve"⟩,
+    ⟨"nilcheck:ecKey.Y == nil", .sampled "didjwk.Resolve"⟩]),
+  ("vdr/didweb/web.go:Resolver.Resolve", [
+    ⟨"lencheck:len(baseURL.Path) == 0", .sampled "didweb.Resolve"⟩]),
+  ("vcr/credential/util.go:ResolveSubjectDID", [
+    ⟨"range:credentials", .sampled "credential.vp / credential.vc"⟩,
+    ⟨"deref:*sid", .sampled "credential.vp / credential.vc"⟩,
+    ⟨"deref:*sid", .sampled "credential.vp / credential.vc"⟩]),
+  ("vcr/credential/util.go:PresenterIsCredentialSubject", [
+    ⟨"deref:*signerDID", .sampled "credential.vp / credential.vc"⟩]),
+  ("vcr/credential/util.go:PresentationIssuanceDate", []),
+  ("vcr/credential/util.go:PresentationExpirationDate", [
+    ⟨"nilcheck:ldProof.Expires == nil", .sampled "credential.vp / credential.vc"⟩,
+    ⟨"deref:*ldProof.Expires", .sampled "credential.vp / credential.vc"⟩]),
+  ("vcr/credential/util.go:AutoCorrectSelfAttestedCredential", [
+    ⟨"lencheck:len(credential.Proof) > 0", .sampled "credential.vp / credential.vc"⟩,
+    ⟨"nilcheck:credential.ID == nil", .sampled "credential.vp / credential.vc"⟩,
+    ⟨"discard:ssi.ParseURI(uuid.NewString())", .sampled "credential.vp / credential.vc"⟩,
+    ⟨"lencheck:len(credentialSubject) == 1", .sampled "credential.vp / credential.vc"⟩,
+    ⟨"nilcheck:credentialSubject[0] == nil", .sampled "credential.vp / credential.vc"⟩,
+    ⟨"index:credentialSubject[0]", .sampled "credential.vp / credential.vc"⟩,
+    ⟨"indexw:credentialSubject[0]", .sampled "credential.vp / credential.vc"⟩,
+    ⟨"index:credentialSubject[0]", .sampled "credential.vp / credential.vc"⟩,
+    ⟨"index:credentialSubject[0][\"id\"]", .sampled "credential.vp / credential.vc"⟩,
+    ⟨"index:credentialSubject[0]", .sampled "credential.vp / credential.vc"⟩,
+    ⟨"indexw:credentialSubject[0][\"id\"]", .sampled "credential.vp / credential.vc"⟩,
+    ⟨"indexw:credential.CredentialSubject[0]", .sampled "credential.vp / credential.vc"⟩,
+    ⟨"index:credentialSubject[0]", .sampled "credential.vp / credential.vc"⟩]),
+  ("vcr/credential/util.go:FilterOnDIDMethod", [
+    ⟨"lencheck:len(didMethods) == 0", .sampled "credential.vp / credential.vc"⟩,
+    ⟨"range:credentials", .sampled "credential.vp / credential.vc"⟩,
+    ⟨"range:bl", .sampled "credential.vp / credential.vc"⟩]),
+  ("vcr/credential/resolver.go:PresentationSigner", []),
+  ("vcr/credential/resolver.go:ParseLDProof", [
+    ⟨"lencheck:len(proofs) != 1", .sampled "credential.vp"⟩,
+    ⟨"index:proofs[0]", .sampled "credential.vp"⟩]),
+  ("vcr/credential/validator.go:validateNutsCredentialID", [
+    ⟨"nilcheck:credential.ID == nil", .sampled "credential.vc"⟩]),
+  ("vcr/verifier/verifier.go:verifier.Verify", [
+    ⟨"lencheck:len(credentialToVerify.Type) > 2", .sampled "verifier.Verify / verifier.VerifyVP"⟩,
+    ⟨"nilcheck:credentialToVerify.ID != nil", .sampled "verifier.Verify / verifier.VerifyVP"⟩,
+    ⟨"deref:*credentialToVerify.ID", .sampled "verifier.Verify / verifier.VerifyVP"⟩,
+    ⟨"discard:json.Marshal(credentialToVerify)", .sampled "verifier.Verify / verifier.VerifyVP"⟩,
+    ⟨"range:credentialToVerify.Type", .sampled "verifier.Verify / verifier.VerifyVP"⟩,
+    ⟨"nilcheck:validAt != nil", .sampled "verifier.Verify / verifier.VerifyVP"⟩,
+    ⟨"deref:*validAt", .sampled "verifier.Verify / verifier.VerifyVP"⟩,
+    ⟨"deref:*issuerDID", .sampled "verifier.Verify / verifier.VerifyVP"⟩,
+    ⟨"rec:v.credentialStatus.Verify", .sampled "verifier.Verify / verifier.VerifyVP"⟩]),
+  ("vcr/verifier/verifier.go:verifier.doVerifyVP", [
+    ⟨"nilcheck:subjectDID == nil", .sampled "verifier.Verify / verifier.VerifyVP"⟩,
+    ⟨"lencheck:len(presentation.VerifiableCredential) > 0", .sampled "verifier.Verify / verifier.VerifyVP"⟩,
+    ⟨"nilcheck:subjectDID != nil", .sampled "verifier.Verify / verifier.VerifyVP"⟩,
+    ⟨"nilcheck:presentation.Holder != nil", .sampled "verifier.Verify / verifier.VerifyVP"⟩,
+    ⟨"range:presentation.VerifiableCredential", .sampled "verifier.Verify / verifier.VerifyVP"⟩,
+    ⟨"nilcheck:presentation.Holder != nil", .sampled "verifier.Verify / verifier.VerifyVP"⟩]),
+  ("crypto/jwx.go:JWTKidAlg", [
+    ⟨"lencheck:len(j.Signatures()) != 1", .sampled "crypto.ParseJWT"⟩,
+    ⟨"index:j.Signatures()[0]", .sampled "crypto.ParseJWT"⟩]),
+  ("crypto/jwx.go:ParseJWT", []),
+  ("crypto/jwx.go:ParseJWS", [
+    ⟨"lencheck:len(signatures) != 1", .sampled "crypto.ParseJWT"⟩,
+    ⟨"index:signatures[0]", .sampled "crypto.ParseJWT"⟩]),
+  ("jsonld/ldutils.go:LDUtil.Canonicalize", [
+    ⟨"defer:recoverProcessorPanic", .sampled "verifier.VerifyVP"⟩,
+    ⟨"discard:json.Marshal(input)", .sampled "verifier.VerifyVP"⟩]),
+  ("vdr/didnuts/validators.go:verificationMethodValidator.Validate", [
+    ⟨"range:document.VerificationMethod", .sampled "didnuts.validate+findKeyByThumbprint"⟩]),
+  ("vdr/didnuts/validators.go:verificationMethodValidator.verifyThumbprint", [
+    ⟨"nilcheck:keyAsJWK == nil", .sampled "didnuts.validate+findKeyByThumbprint"⟩]),
+  ("vdr/didnuts/ambassador.go:ambassador.findKeyByThumbprint", [
+    ⟨"range:didDocumentAuthKeys", .sampled "didnuts.accepted-doc-then-findKeyByThumbprint"⟩,
+    ⟨"nilcheck:key.VerificationMethod == nil", .sampled "didnuts.accepted-doc-then-findKeyByThumbprint"⟩,
+    ⟨"nilcheck:keyAsJWK == nil", .sampled "didnuts.accepted-doc-then-findKeyByThumbprint"⟩]),
+  ("network/transport/v2/handlers.go:protocol.Handle", [
+    ⟨"assert:raw.(*Envelope)", .sampled "v2.Handle"⟩,
+    ⟨"range:allowedErrors", .sampled "v2.Handle"⟩]),
+  ("network/transport/v2/handlers.go:protocol.handle", [
+    ⟨"deref:*Envelope_Gossip", .sampled "v2.Handle"⟩,
+    ⟨"deref:*Envelope_TransactionList", .sampled "v2.Handle"⟩,
+    ⟨"select:", .sampled "v2.Handle"⟩,
+    ⟨"send:p.listHandler.ch", .sampled "v2.Handle"⟩,
+    ⟨"deref:*Envelope_TransactionListQuery", .sampled "v2.Handle"⟩,
+    ⟨"deref:*Envelope_TransactionPayloadQuery", .sampled "v2.Handle"⟩,
+    ⟨"deref:*Envelope_TransactionPayload", .sampled "v2.Handle"⟩,
+    ⟨"deref:*Envelope_TransactionRangeQuery", .sampled "v2.Handle"⟩,
+    ⟨"deref:*Envelope_State", .sampled "v2.Handle"⟩,
+    ⟨"deref:*Envelope_TransactionSet", .sampled "v2.Handle"⟩,
+    ⟨"deref:*Envelope_DiagnosticsBroadcast", .sampled "v2.Handle"⟩]),
+  ("network/transport/v2/handlers.go:protocol.handleTransactionPayload", [
+    ⟨"lencheck:len(msg.Data) == 0", .sampled "v2.Handle"⟩,
+    ⟨"nilcheck:p.privatePayloadReceiver == nil", .sampled "v2.Handle"⟩]),
+  ("network/transport/v2/handlers.go:protocol.handleTransactionPayloadQuery", [
+    ⟨"lencheck:len(tx.PAL()) > 0", .sampled "v2.Handle"⟩,
+    ⟨"nilcheck:pal == nil", .sampled "v2.Handle"⟩]),
+  ("network/transport/v2/handlers.go:protocol.handleTransactionRangeQuery", []),
+  ("network/transport/v2/handlers.go:protocol.handleGossip", [
+    ⟨"range:msg.Transactions", .sampled "v2.Handle"⟩,
+    ⟨"indexw:refs[i]", .sampled "v2.Handle"⟩,
+    ⟨"lencheck:len(refs) > 0", .sampled "v2.Handle"⟩,
+    ⟨"range:refs", .sampled "v2.Handle"⟩,
+    ⟨"indexw:refs[i]", .sampled "v2.Handle"⟩,
+    ⟨"slice:refs[:i]", .sampled "v2.Handle"⟩,
+    ⟨"lencheck:len(refs) > 0", .sampled "v2.Handle"⟩,
+    ⟨"lencheck:len(refs) == 0", .sampled "v2.Handle"⟩]),
+  ("network/transport/v2/handlers.go:protocol.handleTransactionListQuery", [
+    ⟨"range:msg.Refs", .sampled "v2.Handle"⟩,
+    ⟨"indexw:requestedRefs[i]", .sampled "v2.Handle"⟩,
+    ⟨"lencheck:len(requestedRefs) == 0", .sampled "v2.Handle"⟩,
+    ⟨"range:requestedRefs", .sampled "v2.Handle"⟩,
+    ⟨"nilcheck:ctx.Err() != nil", .sampled "v2.Handle"⟩,
+    ⟨"index:unsorted[i]", .sampled "v2.Handle"⟩,
+    ⟨"index:unsorted[j]", .sampled "v2.Handle"⟩]),
+  ("network/transport/v2/handlers.go:protocol.handleState", [
+    ⟨"discard:p.state.IBLT(msg.LC)", .sampled "v2.Handle"⟩]),
+  ("network/transport/v2/handlers.go:protocol.handleTransactionSet", [
+    ⟨"assert:envelope.Message.(*Envelope_TransactionSet)", .sampled "v2.Handle"⟩,
+    ⟨"discard:p.state.IBLT(minLC)", .sampled "v2.Handle"⟩,
+    ⟨"discard:p.state.XOR(dag.MaxLamportClock)", .sampled "v2.Handle"⟩,
+    ⟨"lencheck:len(missing) > 0", .sampled "v2.Handle"⟩])]
 
 def expectedOps : List (String × List String) := expected.map fun p => (p.1, p.2.map (·.go))
 
 /-- the panic sites the expected inventory refers to -/
 def expectedSites : List String :=
-  (expected.flatMap fun p => p.2.filterMap fun e => match e.disp with | .site n => some n | .total _ => none).eraseDups
+  (expected.flatMap fun p => p.2.filterMap fun e => match e.disp with | .site n => some n | _ => none).eraseDups
 
 /-! ### model configurations as the source stands today -/
 
@@ -205,6 +369,13 @@ def resolverCfg : Resolver.Cfg :=
 def callbackCfg : Callback.Cfg :=
   { assertChecked := !has "auth/api/iam/openid4vp.go:withCallbackURI" "assert:err.(oauth.OAuth2Error)"
     envelopeGuard := has "auth/api/iam/openid4vp.go:Wrapper.handleAuthorizeResponseSubmission" "lencheck:len(pexEnvelope.Presentations) == 0" }
+
+def statusListCfg : StatusList.Cfg :=
+  { singleSubjectGuard := has "vcr/revocation/statuslist2021_verifier.go:StatusList2021.validate" "lencheck:len(target) != 1"
+    expirationNilGuard := has "vcr/revocation/statuslist2021_verifier.go:StatusList2021.update" "nilcheck:cred.ExpirationDate != nil" }
+
+def didKeyCfg : DidKey.Cfg :=
+  { emptyGuard := has "vdr/didkey/resolver.go:Resolver.Resolve" "lencheck:len(encodedKey) == 0" }
 
 def ibltCfg : Iblt.Cfg :=
   { k := Facts.C19.ibltK
